@@ -9,3 +9,12 @@ NATIVE = {
         functions=[],
     ),
 }
+NATIVE['n_c18_compress'] = dict(
+    crate='cairo-lang-starknet-classes',
+    host='crates/cairo-lang-starknet-classes/src/felt252_vec_compression.rs',
+    harness='native/cairo-lang-starknet-classes/n_c18_compress.rs',
+    props={'C18', 'C19'},
+    bound='felt vectors of length 0..=260 x distinct-value counts up to 2049',
+    functions=[('crates/cairo-lang-starknet-classes/src/felt252_vec_compression.rs', None, 'compress'),
+               ('crates/cairo-lang-starknet-classes/src/felt252_vec_compression.rs', None, 'decompress')],
+)
